@@ -42,6 +42,7 @@ type Solver struct {
 	hard      *oneShot
 	lastHard  bool
 	HardQueries int
+	hardIDs     map[string]bool
 	HardBin     string // binary for one-shot queries (default z3-new)
 	FastMs    int
 }
@@ -209,9 +210,22 @@ func (s *Solver) readLine() string {
 
 // CheckAssert decides an assertion query: these are the large array-equality formulas,
 // so they go straight to the one-shot solver.
-func (s *Solver) CheckAssert() Result {
-	s.Queries++
-	return s.checkHard()
+func (s *Solver) CheckAssert(id string) Result {
+	if s.hardIDs == nil {
+		s.hardIDs = map[string]bool{}
+	}
+	if s.hardIDs[id] || s.Kind == "cvc5" {
+		s.Queries++
+		return s.checkHard()
+	}
+	s.send("(set-option :timeout 400)")
+	r := s.checkFast()
+	s.send(fmt.Sprintf("(set-option :timeout %d)", s.FastMs))
+	if r == Unknown {
+		s.hardIDs[id] = true
+		r = s.checkHard()
+	}
+	return r
 }
 
 func (s *Solver) Check() Result {
